@@ -1,7 +1,7 @@
 ---------------------------- MODULE Trace_Atoms ----------------------------
 EXTENDS Atoms, TraceBase
 VARIABLE l
-TReset == /\ live' = <<>> /\ next' = 0 /\ cache' = [i \in 1..4 |-> Empty] /\ inited' = FALSE
+TReset == /\ live' = <<>> /\ next' = 0 /\ cache' = [i \in 1..4 |-> Empty] /\ inited' = FALSE /\ wrapped' = FALSE /\ burnt' = FALSE
           /\ out' = [ret |-> 0] /\ hist' = <<>>
 Good(ev) ==
     LET a == ev.args  o == ev.obs IN
@@ -12,6 +12,7 @@ Good(ev) ==
              \/ ev.op = "Lookup"    /\ Lookup(a.id)
              \/ ev.op = "Remove"    /\ Remove(a.id)
              \/ ev.op = "Destroy"   /\ Destroy
+             \/ ev.op = "Burn"      /\ Burn /\ a.from = next
           /\ ObsOK(out', o)
 TraceInit == Init /\ l = 1 /\ TLCSet(1, 1)
 TraceNext ==
